@@ -180,6 +180,7 @@ func (c *Ctx) ruleFunctionCall(rule string) {
 	} else {
 		c.R.Bad(rule, k, c.M.InstrPos(hcall), "handler can be called with a wrong number of arguments", "reflect.Value.Call panics when the argument count differs from the handler's arity")
 	}
+	c.functionCallArgs(rule, fn, hcall)
 	// error provenance
 	ei := core.ErrorResultIndex(fn.Signature)
 	idx := 0
@@ -403,4 +404,150 @@ func (c *Ctx) allCallersEnsureFunc(fn *ssa.Function, p *ssa.Parameter, ensures m
 		}
 	}
 	return n > 0, "every call site passes a handler already checked to be a function"
+}
+
+// functionCallArgs: what is stored into the argument slice of the reflective call.
+//   (i)  every element is reflect.Zero(...) or reflect.ValueOf(x) with x known to be non-nil there - reflect.ValueOf(nil)
+//        is the zero Value and Call panics on it ("Call using zero Value argument");
+//   (ii) every way from a ValueOf store back to the filling loop's header, or on to the call, passes an AssignableTo
+//        test of the element's type - Call panics on an argument that is not assignable to the parameter type.
+func (c *Ctx) functionCallArgs(rule string, fn *ssa.Function, hcall *ssa.Call) {
+	if len(hcall.Call.Args) < 2 {
+		return
+	}
+	slice := hcall.Call.Args[1]
+	dt := core.NewDynTypes(c.M)
+	n := 0
+	assignChecked := func(b *ssa.BasicBlock) bool {
+		for _, in := range b.Instrs {
+			if call, ok := in.(*ssa.Call); ok && call.Call.IsInvoke() && call.Call.Method.Name() == "AssignableTo" {
+				return true
+			}
+		}
+		return false
+	}
+	for _, b := range fn.Blocks {
+		for _, in := range b.Instrs {
+			st, ok := in.(*ssa.Store)
+			if !ok {
+				continue
+			}
+			ia, ok := st.Addr.(*ssa.IndexAddr)
+			if !ok || ia.X != slice {
+				continue
+			}
+			n++
+			k1 := key(rule, c.M.Key(fn), sprintf("argument store #%d is a valid reflect.Value", n))
+			k2 := key(rule, c.M.Key(fn), sprintf("argument store #%d is checked for assignability before the call", n))
+			pos := c.M.InstrPos(st)
+			vcall, _ := st.Val.(*ssa.Call)
+			name := ""
+			if vcall != nil {
+				name = core.StaticCalleeName(&vcall.Call)
+			}
+			switch {
+			case name == "reflect.Zero" || name == "reflect.New":
+				c.R.Ok(rule, k1, pos, "argument of the reflective call", name+" yields a valid Value of the given type")
+				c.R.Ok(rule, k2, pos, "argument of the reflective call", "made from the parameter type itself")
+				continue
+			case name == "reflect.ValueOf":
+				if may, why := c.maybeNilIface(dt, vcall.Call.Args[0], b); !may {
+					c.R.Ok(rule, k1, pos, "argument of the reflective call", why)
+				} else {
+					c.R.Bad(rule, k1, pos, "the reflective call can receive reflect.ValueOf(nil)",
+						"a nil argument (a null for an any or pointer parameter) becomes the zero Value and reflect's Call panics (Call using zero Value argument) instead of the handler being called with nil")
+				}
+			default:
+				c.R.Bad(rule, k1, pos, "argument of the reflective call of unknown construction", "undecided = fail")
+			}
+			// (ii)
+			if assignChecked(b) {
+				c.R.Ok(rule, k2, pos, "argument of the reflective call", "AssignableTo is tested in the same block")
+				continue
+			}
+			header := b
+			for _, cand := range fn.Blocks {
+				if cand.Dominates(b) && blockReaches(b, cand, nil) && blockReaches(cand, b, nil) {
+					header = cand
+					break
+				}
+			}
+			unchecked := blockReaches(b, hcall.Block(), func(x *ssa.BasicBlock) bool { return assignChecked(x) || (x == header && x != b) })
+			if header != b && blockReaches(b, header, assignChecked) {
+				unchecked = true
+			}
+			if unchecked {
+				c.R.Bad(rule, k2, pos, "an argument reaches the reflective call without an assignability test",
+					"reflect's Call panics (Call using X as type Y) when an argument is not assignable to the handler's parameter type; a wrongly typed argument must come back as a call-shape error")
+			} else {
+				c.R.Ok(rule, k2, pos, "argument of the reflective call", "every path onwards passes an AssignableTo test")
+			}
+		}
+	}
+	if n == 0 {
+		c.R.Unresolved(rule, "stores into the argument slice of the reflective call")
+	}
+}
+
+// R-ACCEPT (C18): what the constructors must have looked at before accepting a handler.
+//   - validateInputTypeCompatibility consults IsVariadic() on every accepting path (Call cannot spread a variadic tail);
+//   - NewDynamicCallableFunction stores a type handler that is known to be non-nil (Call tells a dynamic function from
+//     an output-less one by it).
+func (c *Ctx) ruleAccept(rule string) {
+	if fn := c.fn(rule, "schema.validateInputTypeCompatibility"); fn != nil {
+		k := key(rule, c.M.Key(fn), "every accepting return has consulted IsVariadic()")
+		consult := func(b *ssa.BasicBlock) bool {
+			for _, in := range b.Instrs {
+				if call, ok := in.(*ssa.Call); ok && isReflectTypeMethod(call, "IsVariadic") {
+					return true
+				}
+			}
+			return false
+		}
+		bad := ""
+		for _, r := range core.ReturnsOf(fn) {
+			if !core.IsNilConst(core.RetVal(r, 0)) {
+				continue
+			}
+			entry := fn.Blocks[0]
+			if consult(entry) {
+				continue
+			}
+			if r.Block() == entry || blockReaches(entry, r.Block(), consult) {
+				bad = c.M.InstrPos(r)
+			}
+		}
+		if bad == "" {
+			c.R.Ok(rule, k, c.M.Pos(fn.Pos()), "handler acceptance", "IsVariadic() is on every path to an accepting return")
+		} else {
+			c.R.Bad(rule, k, bad, "a handler can be accepted without IsVariadic() having been consulted",
+				"for func(xs ...T) the reflected parameter type is []T, so a list input passes the type check, but Call does not spread: the call panics or wraps the list into one element")
+		}
+	}
+	if fn := c.fn(rule, "schema.NewDynamicCallableFunction"); fn != nil {
+		k := key(rule, c.M.Key(fn), "the stored type handler is non-nil")
+		found := false
+		for _, b := range fn.Blocks {
+			for _, in := range b.Instrs {
+				st, ok := in.(*ssa.Store)
+				if !ok {
+					continue
+				}
+				fa, ok := st.Addr.(*ssa.FieldAddr)
+				if !ok || fieldName(fa.X.Type(), fa.Field) != "DynamicTypeHandler" {
+					continue
+				}
+				found = true
+				if c.M.NonNilAt(b, c.M.ValPath(st.Val)) {
+					c.R.Ok(rule, k, c.M.InstrPos(st), "dynamic function construction", "dominated by a non-nil test of the type handler")
+				} else {
+					c.R.Bad(rule, k, c.M.InstrPos(st), "a dynamic function can be built with a nil type handler",
+						"Call treats a function without type handler and without static output as returning nothing: the handler runs, its result and error are discarded and replaced by an unexpected-return-count error")
+				}
+			}
+		}
+		if !found {
+			c.R.Unresolved(rule, "store to DynamicTypeHandler")
+		}
+	}
 }
